@@ -217,6 +217,22 @@ F("C05", "class-level-changed", G + "segment.py", None, "    class_level = 3\n",
 F("C05", "segment-in-plane-to-fallback", G + "segment.py", "Segment.in_", "    elif isinstance(other, Plane):", "    elif isinstance(other, Point):", rule="R5.1")
 F("C05", "polygon-in-plane-raises", G + "polygon.py", "ConvexPolygon.in_", "if isinstance(other, Plane):", "if isinstance(other, Line):", rule="R5.1")
 F("C05", "halfline-contains-drops-segment", G + "halfline.py", "HalfLine.__contains__", "    if isinstance(other, Segment):", "    if isinstance(other, Plane):", rule="R5.1")
+F("C05", "polygon-point-drops-plane", G + "polygon.py", "ConvexPolygon.__contains__", "        return r1 and r2", "        return r2", rule="R5.3")
+F("C05", "segment-point-drops-carrier", G + "segment.py", "Segment.__contains__",
+  "return r1 and reletive_length > -get_eps() and (reletive_length < 1 + get_eps())", "return reletive_length > -get_eps() and reletive_length < 1 + get_eps()", rule="R5.3")
+F("C05", "halfline-point-unguarded", G + "halfline.py", "HalfLine.__contains__",
+  "        if r1:\n            v1 = Vector(self.point, other)\n            return v1 * self.vector > -get_eps()\n        else:\n            return False",
+  "        v1 = Vector(self.point, other)\n        return v1 * self.vector > -get_eps()", rule="R5.3")
+F("C05", "polyhedron-point-first-face", G + "polyhedron.py", "ConvexPolyhedron.__contains__",
+  "            if direction_vector * polygon.plane.n > get_eps():\n                return False\n        return True",
+  "            if direction_vector * polygon.plane.n > get_eps():\n                return False\n            return True\n        return True", rule="R5.3")
+F("C05", "polyhedron-point-any-face", G + "polyhedron.py", "ConvexPolyhedron.__contains__",
+  "            if direction_vector * polygon.plane.n > get_eps():\n                return False\n        return True",
+  "            if direction_vector * polygon.plane.n <= get_eps():\n                return True\n        return False", rule="R5.3")
+N("C05", "polygon-point-early-exit", G + "polygon.py", "ConvexPolygon.__contains__", "        r1 = other in self.plane\n",
+  "        r1 = other in self.plane\n        if not r1:\n            return False\n")
+N("C05", "segment-point-carrier-first", G + "segment.py", "Segment.__contains__", "        r1 = other in self.line\n",
+  "        if not other in self.line:\n            return False\n        r1 = True\n")
 N("C05", "swap-conjuncts", G + "polygon.py", "ConvexPolygon.__contains__",
   "return other.start_point in self and other.end_point in self", "return other.end_point in self and other.start_point in self")
 N("C05", "conjuncts-via-locals", G + "segment.py", "Segment.__contains__",
